@@ -342,7 +342,16 @@ pub fn build<K: Kind>(case: &Case, t: &Tr, alt: bool) -> K {
         }
         Tr::Conde(v) => {
             let gs: Vec<K> = v.iter().map(|x| build::<K>(case, x, alt)).collect();
-            Conde::from_vec(gs).cast_into()
+            // all three public constructors: from_vec; in the alternative build from_array
+            // (odd number of clauses) or from_conjunctions with one goal per clause (even)
+            if !alt {
+                Conde::from_vec(gs).cast_into()
+            } else if gs.len() % 2 == 1 {
+                Conde::from_array(&gs).cast_into()
+            } else {
+                let clauses: Vec<&[K]> = gs.iter().map(std::slice::from_ref).collect();
+                Conde::from_conjunctions(&clauses).cast_into()
+            }
         }
         Tr::Disj(v) => K::disj_vec(v.iter().map(|x| build::<K>(case, x, alt)).collect()),
         Tr::Fresh(x) => Fresh::new(vec![], build::<K>(case, x, alt)).cast_into(),
